@@ -634,6 +634,15 @@ func (w *World) followShadow(rec *BlockRec) {
 			if w.PropOverride == "C04" {
 				m.AfterBlock(wb)
 			}
+		case *monC12:
+			// from every state of the imported chain, too, the exits of a funded stream are open
+			if w.PropOverride == "C12" {
+				m.AfterBlock(wb)
+			}
+		case *monC17:
+			if w.PropOverride == "C17" {
+				m.AfterBlock(wb)
+			}
 		case *monC03:
 			if w.PropOverride == "C03" {
 				shadowOrders(w, wb)
